@@ -32,13 +32,15 @@ EXTENDS Integers, Sequences, FiniteSets, TLC, Json, IOUtils
 
 Rec == ndJsonDeserialize(IOEnv.TRACE)
 
-VARIABLES l, done, run, bs, committed, db, ended, viol, stats
+VARIABLES l, done, run, bs, committed, db, ended, viol, stats,
+          lazy,    \* the run marks a batch with its first fill: a never-filled batch is truly empty
+          emptyG   \* logical groups without marker and without content seen in this run
 
-vars == <<l, done, run, bs, committed, db, ended, viol, stats>>
+vars == <<l, done, run, bs, committed, db, ended, viol, stats, lazy, emptyG>>
 
 Range(s) == {s[i] : i \in 1..Len(s)}
 
-ZeroStats == [runs |-> 0, batches |-> 0, submitted |-> 0, fills |-> 0, physical |-> 0,
+ZeroStats == [empty_submitted |-> 0, empty_groups |-> 0, runs |-> 0, batches |-> 0, submitted |-> 0, fills |-> 0, physical |-> 0,
               groups |-> 0, grouped |-> 0, held_back |-> 0, past_gap |-> 0,
               racing_runs |-> 0, out_of_order_submits |-> 0, aborted |-> 0,
               gated_drops |-> 0, multi_thread_batches |-> 0]
@@ -57,6 +59,8 @@ Init ==
     /\ ended = "none"
     /\ viol = <<>>
     /\ stats = ZeroStats
+    /\ lazy = FALSE
+    /\ emptyG = 0
 
 Ev == Rec[l]
 IsEvent(e) == l <= Len(Rec) /\ Ev.e = e
@@ -70,6 +74,8 @@ StartRun ==
     /\ db' = <<>>
     /\ ended' = "none"
     /\ stats' = Bump(Bump(stats, "runs", 1), "racing_runs", IF Ev.mode = "racing" THEN 1 ELSE 0)
+    /\ lazy' = ("lazy" \in DOMAIN Ev /\ Ev.lazy)
+    /\ emptyG' = 0
     /\ UNCHANGED viol
     /\ Consume
 
@@ -83,7 +89,7 @@ TCreate ==
                                      ops |-> <<>>, who |-> {Ev.t}])
             /\ UNCHANGED viol
     /\ stats' = Bump(stats, "batches", 1)
-    /\ UNCHANGED <<run, committed, db, ended>>
+    /\ UNCHANGED <<run, committed, db, ended, lazy, emptyG>>
     /\ Consume
 
 TFill ==
@@ -94,7 +100,7 @@ TFill ==
                                 ![Ev.b].who = @ \cup {Ev.t}]
             /\ UNCHANGED viol
     /\ stats' = Bump(stats, "fills", 1)
-    /\ UNCHANGED <<run, committed, db, ended>>
+    /\ UNCHANGED <<run, committed, db, ended, lazy, emptyG>>
     /\ Consume
 
 TSubmit ==
@@ -110,17 +116,17 @@ TSubmit ==
                     "multi_thread_batches",
                     IF Cardinality(bs[Ev.b].who \cup {Ev.t}) > 1 THEN 1 ELSE 0)
             /\ UNCHANGED viol
-    /\ UNCHANGED <<run, committed, db, ended>>
+    /\ UNCHANGED <<run, committed, db, ended, lazy, emptyG>>
     /\ Consume
 
 TDiscard ==
     /\ IsEvent("discard")
-    /\ UNCHANGED <<run, bs, committed, db, ended, viol, stats>>
+    /\ UNCHANGED <<run, bs, committed, db, ended, viol, stats, lazy, emptyG>>
     /\ Consume
 
 TMidSnap ==
     /\ IsEvent("midsnap")
-    /\ UNCHANGED <<run, bs, committed, db, ended, viol, stats>>
+    /\ UNCHANGED <<run, bs, committed, db, ended, viol, stats, lazy, emptyG>>
     /\ Consume
 
 TDrop ==
@@ -130,14 +136,14 @@ TDrop ==
         \o (IF Ev.early THEN <<V("drop_returned_early", -1, 0)>> ELSE <<>>)
         \o (IF Ev.panic # "" THEN <<V("drop_panicked", -1, 0)>> ELSE <<>>)
     /\ stats' = Bump(stats, "gated_drops", IF Ev.blocked > 0 THEN 1 ELSE 0)
-    /\ UNCHANGED <<run, bs, committed, db>>
+    /\ UNCHANGED <<run, bs, committed, db, lazy, emptyG>>
     /\ Consume
 
 THang ==
     /\ IsEvent("hang")
     /\ ended' = "hang"
     /\ viol' = Append(viol, V("drop_hang", -1, 0))
-    /\ UNCHANGED <<run, bs, committed, db, stats>>
+    /\ UNCHANGED <<run, bs, committed, db, stats, lazy, emptyG>>
     /\ Consume
 
 (* the process was aborted inside Drop (inserted by the check from the      *)
@@ -146,11 +152,17 @@ TAborted ==
     /\ IsEvent("aborted")
     /\ ended' = "aborted"
     /\ stats' = Bump(stats, "aborted", 1)
-    /\ UNCHANGED <<run, bs, committed, db, viol>>
+    /\ UNCHANGED <<run, bs, committed, db, viol, lazy, emptyG>>
     /\ Consume
 
 (* a batch created entirely before b that was never submitted: the gap      *)
 GapBefore(b) == \E g \in DOMAIN bs : ~bs[g].sub /\ bs[g].ce < bs[b].cs
+
+(* with lazy marking a batch that was never filled is submitted truly empty:  *)
+(* it has no observable effect and cannot be recognised in the commit log;   *)
+(* it must not hold anything back either                                     *)
+Empty(b) == lazy /\ bs[b].ops = <<>>
+SubmittedEmpties == {b \in DOMAIN bs : bs[b].sub /\ Empty(b)}
 
 OpSet(ops) == {<<ops[i].c, ops[i].v>> : i \in 1..Len(ops)}
 Want(b) == {<<c, bs[b].ops[c]>> : c \in DOMAIN bs[b].ops}
@@ -162,14 +174,16 @@ ApplyOps(d, ops) ==
 (* one logical group of a physical commit; acc = [c, d, v, pg]              *)
 DoGroup(acc, g) ==
     LET d2 == ApplyOps(acc.d, g.ops) IN
-    IF Len(g.b) # 1
+    IF Len(g.b) = 0 /\ g.ops = <<>> /\ acc.eg < Cardinality(SubmittedEmpties)
+    THEN [acc EXCEPT !.eg = @ + 1]
+    ELSE IF Len(g.b) # 1
     THEN [acc EXCEPT !.d = d2, !.v = Append(@, V("group_marker", -1, Len(g.b)))]
     ELSE
       LET b == g.b[1] IN
       IF b \notin DOMAIN bs
       THEN [acc EXCEPT !.d = d2, !.v = Append(@, V("commit_of_unknown_batch", b, 0))]
       ELSE
-        LET late == {a \in DOMAIN bs : /\ bs[a].sub /\ a # b
+        LET late == {a \in DOMAIN bs : /\ bs[a].sub /\ a # b /\ ~Empty(a)
                                        /\ a \notin Range(acc.c)
                                        /\ bs[a].ce < bs[b].cs}
             v1 == IF ~bs[b].sub THEN <<V("commit_of_unsubmitted_batch", b, 0)>> ELSE <<>>
@@ -178,20 +192,21 @@ DoGroup(acc, g) ==
             v4 == IF OpSet(g.ops) # Want(b) \/ Cardinality(OpSet(g.ops)) # Len(g.ops)
                   THEN <<V("batch_content", b, Len(g.ops))>> ELSE <<>>
         IN [c |-> Append(acc.c, b), d |-> d2, v |-> acc.v \o v1 \o v2 \o v3 \o v4,
-            pg |-> acc.pg + (IF GapBefore(b) THEN 1 ELSE 0)]
+            pg |-> acc.pg + (IF GapBefore(b) THEN 1 ELSE 0), eg |-> acc.eg]
 
 RECURSIVE DoGroups(_, _)
 DoGroups(acc, gs) == IF gs = <<>> THEN acc ELSE DoGroups(DoGroup(acc, Head(gs)), Tail(gs))
 
 TCommit ==
     /\ IsEvent("commit")
-    /\ LET r == DoGroups([c |-> committed, d |-> db, v |-> viol, pg |-> 0], Ev.groups) IN
+    /\ LET r == DoGroups([c |-> committed, d |-> db, v |-> viol, pg |-> 0, eg |-> emptyG], Ev.groups) IN
         /\ committed' = r.c
+        /\ emptyG' = r.eg
         /\ db' = r.d
         /\ viol' = r.v \o (IF Ev.groups = <<>> THEN <<V("empty_physical_commit", -1, 0)>> ELSE <<>>)
         /\ stats' = Bump(Bump(Bump(Bump(stats, "physical", 1), "groups", Len(Ev.groups)),
                          "grouped", IF Len(Ev.groups) > 1 THEN 1 ELSE 0), "past_gap", r.pg)
-    /\ UNCHANGED <<run, bs, ended>>
+    /\ UNCHANGED <<run, bs, ended, lazy>>
     /\ Consume
 
 (* reference: apply the submitted batches one after another in creation     *)
@@ -210,7 +225,7 @@ MaxId == IF DOMAIN bs = {} THEN -1 ELSE CHOOSE m \in DOMAIN bs : \A x \in DOMAIN
 
 TFinal ==
     /\ IsEvent("final")
-    /\ LET subm == {b \in DOMAIN bs : bs[b].sub}
+    /\ LET subm == {b \in DOMAIN bs : bs[b].sub /\ ~Empty(b)}
            missing == subm \ Range(committed)
            held == {b \in missing : GapBefore(b)}
            lost == missing \ held
@@ -227,13 +242,14 @@ TFinal ==
            v6 == IF ended = "aborted" /\ held = {}
                  THEN <<V("drop_aborted_without_gap", -1, 0)>> ELSE <<>>
        IN /\ viol' = viol \o v1 \o v2 \o v3 \o v4 \o v5 \o v6
-          /\ stats' = Bump(stats, "held_back", Cardinality(held))
-    /\ UNCHANGED <<run, bs, committed, db, ended>>
+          /\ stats' = Bump(Bump(Bump(stats, "held_back", Cardinality(held)),
+                          "empty_submitted", Cardinality(SubmittedEmpties)), "empty_groups", emptyG)
+    /\ UNCHANGED <<run, bs, committed, db, ended, lazy, emptyG>>
     /\ Consume
 
 TEnd ==
     /\ IsEvent("end")
-    /\ UNCHANGED <<run, bs, committed, db, ended, viol, stats>>
+    /\ UNCHANGED <<run, bs, committed, db, ended, viol, stats, lazy, emptyG>>
     /\ Consume
 
 Known == {"run", "create", "fill", "submit", "discard", "midsnap", "drop", "hang", "aborted",
@@ -242,7 +258,7 @@ Known == {"run", "create", "fill", "submit", "discard", "midsnap", "drop", "hang
 TUnknown ==
     /\ l <= Len(Rec) /\ Ev.e \notin Known
     /\ viol' = Append(viol, V("harness_unknown_event", -1, 0))
-    /\ UNCHANGED <<run, bs, committed, db, ended, stats>>
+    /\ UNCHANGED <<run, bs, committed, db, ended, stats, lazy, emptyG>>
     /\ Consume
 
 Finish ==
@@ -250,7 +266,7 @@ Finish ==
     /\ ~done
     /\ JsonSerialize(IOEnv.OUT, [events |-> Len(Rec), stats |-> stats, viol |-> viol])
     /\ done' = TRUE
-    /\ UNCHANGED <<l, run, bs, committed, db, ended, viol, stats>>
+    /\ UNCHANGED <<l, run, bs, committed, db, ended, viol, stats, lazy, emptyG>>
 
 Next ==
     \/ StartRun \/ TCreate \/ TFill \/ TSubmit \/ TDiscard \/ TMidSnap \/ TDrop \/ THang
